@@ -648,7 +648,14 @@ func gen(t *rapid.T, binar bool) (Case, string, bool) {
 		case "crop":
 			switch rapid.IntRange(0, 7).Draw(t, "cropkind") {
 			case 0: // negative origin
-				op.A = []int{rapid.IntRange(-3, -1).Draw(t, "nl"), rapid.IntRange(-2, 2).Draw(t, "nt"), rapid.IntRange(1, w).Draw(t, "cw"), rapid.IntRange(1, h).Draw(t, "ch")}
+				nl, nt := rapid.IntRange(-3, -1).Draw(t, "nl"), rapid.IntRange(-3, -1).Draw(t, "nt")
+				switch rapid.IntRange(0, 2).Draw(t, "which") {
+				case 0: // only the left edge is outside
+					nt = rapid.IntRange(0, h-1).Draw(t, "t0")
+				case 1: // only the top edge is outside
+					nl = rapid.IntRange(0, w-1).Draw(t, "l0")
+				}
+				op.A = []int{nl, nt, rapid.IntRange(1, w).Draw(t, "cw"), rapid.IntRange(1, h).Draw(t, "ch")}
 				cls["crop_negative_origin"] = true
 			case 1: // overhanging
 				l, tp := rapid.IntRange(0, w-1).Draw(t, "l"), rapid.IntRange(0, h-1).Draw(t, "t")
